@@ -1123,7 +1123,7 @@ func Run(c *ev.Ctx) int {
 	c.Assume("not judged as must-reject (either refused with the key unchanged, or stored exactly): bytes after the final chunk, a stream without the terminating 0-chunk whose data chunks are all intact, a Content-Length that disagrees only with the transport framing of a complete aws-chunked stream, X-Amz-Decoded-Content-Length on a non-chunked upload")
 	c.Assume("UNSIGNED-PAYLOAD with Content-Length smaller than what the client goes on to write is a complete request of Content-Length bytes: acceptance is legitimate iff exactly that prefix is stored")
 
-	reps := c.Pick(1, 3)
+	reps := c.Pick(1, 10)
 	otmp := allSpecs("otmp", reps)
 	nootmp := allSpecs("nootmp", reps)
 	if !c.Thorough() {
